@@ -16,6 +16,7 @@ func init() {
 			"(C10-loop) a struct local updated field by field in a loop of the ingress analyzer (the pod access port) is a fresh variable of each iteration; " +
 			"(C10-pure) no unreviewed memo on the ingress query path. " +
 			"(C02-c, shared) the pair (ingress-controller, workload) goes through the same ANP > NetworkPolicy > BANP layer table as any pair: no return of the per-direction evaluation outside its row. " +
+			"(C10-role-*) endpoint roles as in C01, for the pair (ingress-controller, workload): an admin policy's ingress rule resolves its named ports on the workload, not on the ingress-controller pod (which has no ports); (C10-ia-empty) the emptiness of the ingress analyzer is `no services | (no routes & no ingresses)`. " +
 			"NOT decided: the arithmetic of which concrete ports result on an input; k8s label-selector matching (library)."
 		rules.FieldCoverage(p, r, "C10-fields", "the list path", rules.ListEntries(p), rules.FieldsIngress, "a Service/Ingress/Route field named by the statement is never read on the list path")
 		rules.ServicePortDesignation(p, r, "C10-port")
